@@ -8,7 +8,7 @@ using namespace vh;
 
 // ---- observation of LabeledDirectedGraph<L>: layout of DirectedModel.observe ----
 template <class L> Segs observeD(const LabeledDirectedGraph<L> &g) {
-    Segs S(8); size_t n = g.getSize();
+    Segs S(9); size_t n = g.getSize(); S[8] = iterSeg(g);
     S[0].push_back(n); S[0].push_back(g.getEdgeNumber());
     for (unsigned i = 0; i < n; i++) for (unsigned j = 0; j < n; j++) S[1].push_back(guard([&] { return (Z)g.hasEdge(i, j); }));
     for (unsigned i = 0; i < n; i++) {
@@ -54,7 +54,7 @@ template <class L> void runD(size_t n0, const std::vector<std::string> &ops) {
 
 // ---- observation of LabeledUndirectedGraph<L>: layout of UndirectedModel.u_observe ----
 template <class L> Segs observeU(const LabeledUndirectedGraph<L> &g) {
-    Segs S(8); size_t n = g.getSize();
+    Segs S(9); size_t n = g.getSize(); S[8] = iterSeg(g);
     S[0].push_back(n); S[0].push_back(g.getEdgeNumber());
     for (unsigned i = 0; i < n; i++) for (unsigned j = 0; j < n; j++) S[1].push_back(guard([&] { return (Z)g.hasEdge(i, j); }));
     for (unsigned i = 0; i < n; i++)
